@@ -5,7 +5,8 @@ run the property's rules on the copy and require the named instance to be report
 
 Mutants live in selftest/<PROP>.json: [{"id", "rule", "file", "search", "replace", "expect" (substring of
 the reported key or message), "mir": bool, "note"}].  A mutant must change exactly one occurrence.
-Exit 0 iff every mutant is caught by the expected rule and the unchanged copy is silent.
+Exit 0 iff every mutant is caught by the expected rule and the behaviour-preserving variants (neutral/edits.diff, a rustfmt
+re-formatting of the whole tree) add no report.
 """
 import json
 import os
@@ -91,8 +92,61 @@ def main(argv):
             finally:
                 shutil.rmtree(d, ignore_errors=True)
                 shutil.rmtree(evd, ignore_errors=True)
+    if "--no-neutral" not in argv and not only:
+        ok = neutral(props or [fn[:-5] for fn in files if fn.endswith(".json")], base) and ok
     print("selftest: %d/%d mutants caught" % (caught, total))
     return 0 if ok else 3
+
+
+def vio_keys(out):
+    return {l.split("#", 1)[1].strip() for l in out.splitlines() if l.startswith("VIOLATION") and "#" in l}
+
+
+def neutral(props, base):
+    """Behaviour-preserving variants of the tree must not add a report: (a) neutral/edits.diff (renamed locals, reordered arms,
+    matches! for match, map for and_then(Some), an extracted local, a complete hand-written Hash), (b) the whole tree re-formatted by rustfmt
+    with a narrow width (closure bodies and arm values gain braces, chains are re-wrapped)."""
+    ok = True
+    variants = []
+    d = make_copy(base)
+    r = subprocess.run(["patch", "-p1", "-s", "-d", d, "-i", os.path.join(VERIF, "neutral", "edits.diff")], capture_output=True, text=True)
+    if r.returncode == 0:
+        variants.append(("edits", d))
+    else:
+        print("skipped neutral:edits (the patch does not apply to this tree)")
+        shutil.rmtree(d, ignore_errors=True)
+    d = make_copy(base)
+    fl = [os.path.join(dp, f) for dp, _, fs in os.walk(os.path.join(d, "src")) for f in fs if f.endswith(".rs")]
+    r = subprocess.run(["rustfmt", "--edition", "2021", "--config", "max_width=72,fn_call_width=40,use_small_heuristics=Off"] + fl, capture_output=True, text=True)
+    if r.returncode == 0:
+        variants.append(("rustfmt72", d))
+    else:
+        print("skipped neutral:rustfmt72 (rustfmt failed: %s)" % r.stderr[-120:].replace("\n", " "))
+        shutil.rmtree(d, ignore_errors=True)
+    ref = make_copy(base)
+    try:
+        for prop in props:
+            evd = tempfile.mkdtemp(prefix="qv-selftest-ev-", dir=base)
+            try:
+                rc0, out0 = run_check(prop, ref, evd)
+                for name, vd in variants:
+                    rc, out = run_check(prop, vd, evd)
+                    new = vio_keys(out) - vio_keys(out0)
+                    if rc == 2 and rc0 != 2:
+                        ok = False
+                        print("FALSE-ALARM %s/neutral:%s checker error on a behaviour-preserving variant: %s" % (prop, name, " | ".join(l for l in out.splitlines() if l.startswith("ERROR"))[:300]))
+                    elif new:
+                        ok = False
+                        print("FALSE-ALARM %s/neutral:%s reports %s" % (prop, name, sorted(new)[:4]))
+                    else:
+                        print("silent  %s/neutral:%s" % (prop, name))
+            finally:
+                shutil.rmtree(evd, ignore_errors=True)
+    finally:
+        for _, vd in variants:
+            shutil.rmtree(vd, ignore_errors=True)
+        shutil.rmtree(ref, ignore_errors=True)
+    return ok
 
 
 if __name__ == "__main__":
